@@ -155,6 +155,20 @@ CHECKS["C14"] = dict(
     note="Trusted: the IEC 62386-209 Tc subset of harness/model_gear.py (raw registers, device-type gating, send-twice rule).",
     design="4/C14")
 
+CHECKS["C16"] = dict(
+    technique="discrete-event simulation of the real asyncio drivers on a virtual-time loop against gateway models; "
+              "Hypothesis-generated callers, outcomes, latencies and stale reports; result oracle per caller",
+    text="Tridonic HID, hasseb HID, LUBA and SCI drivers run unmodified on a harness-owned virtual-time event loop; a "
+         "gateway model answers their writes with reports whose delivery times are drawn inside the protocol's windows. "
+         "3 000 (quick) / 60 000 (thorough) generated scenarios: 1-3 callers (single sends, sequences, manual transactions, "
+         "parallel in-transaction sends), every response kind, 16/24-bit, device-type and send-twice commands, outcomes "
+         "silent / value / framing error, stale answers from earlier traffic; daliserver and ATX hat against scripted "
+         "sockets/serial ports. Oracle: None iff the command has no response, else the command's own response class "
+         "wrapping exactly that caller's scripted outcome.",
+    note="Trusted: the gateway conversation models in harness/gateways.py and gateways_serial.py (what the drivers' code "
+         "expects; vendor documents are not in the sandbox); asyncio's FIFO ready queue.",
+    design="4/C16")
+
 NOT_BUILT_REASON = "check not built yet in this round (planned, see DESIGN.md section 4); not claimed until it is registered"
 
 
